@@ -105,10 +105,14 @@ func (m *MonC13) OnStepEnd(w *World, step int) {
 	}
 	op := w.Script[step]
 	if op.K != "sysreset" && m.preRaw != nil {
+		released := map[string]bool{}
 		for _, e := range w.Log() {
+			if e.Step == step && e.Kind == "mq_unsub" && strings.HasPrefix(e.Subject, "event.") {
+				released[e.Subject[6:]] = true // evicted (and possibly fetched anew) within this step
+			}
 			if e.Step == step && e.Kind == "mq_req" && strings.HasPrefix(e.Subject, "get.") {
 				n := e.Subject[4:]
-				if m.preRaw[n][e.Query] && !m.preLocked[n] && w.Cfg.ResetThrottle == 0 {
+				if m.preRaw[n][e.Query] && !m.preLocked[n] && !released[n] && w.Cfg.ResetThrottle == 0 {
 					m.viols = append(m.viols, Violation{Property: "C13", Class: "redundant_get", Step: e.Step, T: e.T, Conn: -1,
 						Message: fmt.Sprintf("get.%s with query %q requested at t=%d although that query was already fetched and linked in the cache", n, e.Query, e.T)})
 				}
